@@ -39,6 +39,16 @@ def gen_session(r, tier):
     times = [0.0]
     for _ in range(T - 1):
         times.append(round(times[-1] + r.choice([1.0, 1.0, 0.5, 2.5, r.uniform(0.2, 3.0)]), 3))
+    # one junction that jumps out of the tracker's reach in one frame (a T1-like event)
+    if T > 2 and r.random() < 0.12:
+        spec.setdefault("motion", {"amp": 0.0, "drift": [0.0, 0.0], "stretch": 0.0})
+        spec["motion"]["jump"] = {"frame": r.randrange(1, T), "index": r.randrange(50),
+                                  "d": [round(r.choice([-1, 1]) * r.uniform(0.25, 0.45), 3), round(r.uniform(-0.2, 0.2), 3)]}
+        try:
+            for f in range(T):
+                TS.build_tissue(spec, f)
+        except ValueError:
+            spec["motion"].pop("jump", None)
     # frames that do not share labels, or that lose a border cell (tracking is by proximity)
     if T > 1 and r.random() < 0.12:
         spec["ids_per_frame"] = True
@@ -84,7 +94,7 @@ def _gen_call(r, op, T, calm):
     if op == "solve_stress":
         meth = R.choice_w(r, [(None, 6), ("lsq_linear", 3), ("lsq", 1), ("fix_stress", 0 if calm else 1)])
         st = {"op": op, "when": when, "method": meth,
-              "b_matrix": R.choice_w(r, [(None, 8), ("velocity", 8), ("static", 2), ("acceleration", 1)]),
+              "b_matrix": R.choice_w(r, [(None, 8), ("velocity", 8), ("static", 2), ("acceleration", 2)]),
               "allow_negatives": r.choice([None, True, False]),
               "adimensional_velocity": r.choice([None, True, False]),
               "velocity_normalization": r.choice([None, None, 0.1, 2.0, 0])}
@@ -109,7 +119,7 @@ def _gen_call(r, op, T, calm):
 
 
 P_METHOD = [None, "lsq_linear", "lsq"]
-P_B = [None, "velocity"]
+P_B = [None, "velocity", "acceleration"]
 P_FIT = ["default", "taubinSVD"]
 P_ANGLE = ["default", "inf", 2.5]
 P_VARIANT = ["rebuild", "no-rebuild", "other-frame-between"]
@@ -124,12 +134,21 @@ def gen_pairs_trace(seed, tier):
     between, each solve followed by the pressure step."""
     base, idx = divmod(seed, 1_000_000)
     g = idx // 4
-    series_no, cell = divmod(g * 37 % PAIRS_SIZE + (g // PAIRS_SIZE) * PAIRS_SIZE, PAIRS_SIZE)
+    series_no = g // PAIRS_SIZE
+    cell = (g * 2741 + base * 977) % PAIRS_SIZE      # 2741 is coprime to the product size: a short run spreads over all axes
     var = P_VARIANT[cell % len(P_VARIANT)]
     xi, yi = divmod(cell // len(P_VARIANT), len(P_OPTS))
     r_in = R.stream(base * 1_000_000 + series_no, "pairs-input")
-    spec = TS.random_spec(r_in, max_side=3, kmax=4, for_solver=True, frames=2)
-    sess = {"spec": spec, "frames": 2, "times": [0.0, 1.5], "path": "direct", "cm": False, "gt": True}
+    spec = TS.random_spec(r_in, max_side=3, kmax=4, for_solver=True, frames=3)
+    if "acceleration" in (P_OPTS[xi][1], P_OPTS[yi][1]) or cell % 4 == 1:
+        spec.setdefault("motion", {"amp": 0.0, "drift": [0.0, 0.0], "stretch": 0.0})
+        spec["motion"]["jump"] = {"frame": 1, "index": r_in.randrange(50), "d": [0.35, -0.1]}
+        try:
+            for f in range(3):
+                TS.build_tissue(spec, f)
+        except ValueError:
+            spec["motion"].pop("jump", None)
+    sess = {"spec": spec, "frames": 3, "times": [0.0, 1.5, 2.0], "path": "direct", "cm": False, "gt": True}
 
     def build(o, when):
         return {"op": "build_force_matrix", "when": when, "angle_limit": o[3], "fit": o[2], "ignore_four": None,
